@@ -280,6 +280,10 @@ class Env:
     def make_message(self, sid, kind="ok"):
         if self.gen == 4:
             gc = self.gc
+            if kind == "ok" and sid % 7 == 5:
+                import pyairtouch.at4.comms.x1F_ext as x1f
+                import pyairtouch.at4.comms.x1FFF12_group_names as gn
+                return x1f.ExtendedMessage(gn.GroupNamesMessage({(sid + k) % 16: ("G%d" % sid)[:8] for k in range(1 + sid % 3)}))
             if kind == "ok":
                 return gc.GroupControlMessage(group_number=sid % 16, power=gc.GroupPowerControl.UNCHANGED,
                                               control_method=gc.GroupControlMethod.UNCHANGED,
@@ -295,6 +299,13 @@ class Env:
                 return gc.GroupControlMessage(group_number=sid % 16, power=None, control_method=gc.GroupControlMethod.UNCHANGED, setting=None)
         else:
             zc = self.zc
+            if kind == "ok" and sid % 7 == 5:
+                # not every message is a fixed-size control message: a names message whose size depends on its content (two of them queued
+                # together are sized before the first is encoded)
+                import pyairtouch.at5.comms.x1F_ext as x1f
+                import pyairtouch.at5.comms.x1FFF13_zone_names as zn
+                names = {(sid + k) % 16: ("Z%d" % sid) * (1 + (sid + k) % 3) for k in range(2)}
+                return x1f.ExtendedMessage(zn.ZoneNamesMessage(names))
             if kind == "ok":
                 return self._at5_zone(sid)
             if kind == "bad_struct":
